@@ -126,7 +126,7 @@ def str_clean(r):
     return r._storage is None and not r._initialized and r._config is None
 
 
-@contract(DRY + "DRYRule.finalize", props=["C08", "C07", "C10"], types=dict(self=DRYRuleT, violations=Viols), returns=Viols,
+@contract(DRY + "DRYRule.finalize", props=["C08"], types=dict(self=DRYRuleT, violations=Viols), returns=Viols,
           modifies=["self._constants", "self._file_contents", "self._helpers.inline_ignore._ignore_ranges",
                     "self._helpers.constant_violation_builder.min_occurrences"])
 class DryFinalize:
@@ -146,7 +146,7 @@ class DryFinalize:
         return implies(old.self._storage is None or old.self._config is None, result == [])
 
 
-@contract(STR + "StringlyTypedRule.finalize", props=["C08", "C07", "C10"], types=dict(self=StrRuleT, violations=Viols),
+@contract(STR + "StringlyTypedRule.finalize", props=["C08"], types=dict(self=StrRuleT, violations=Viols),
           returns=Viols, modifies=["self._storage", "self._config", "self._initialized"])
 class StringlyFinalize:
     def ensures_clean_after_finalize(self, old):
